@@ -58,6 +58,9 @@ def eval_case(ctx, case):
         return
     N = np.array(p.normal, dtype=float)
     verts = np.array(p.vertices, dtype=float)
+    if abs(float(np.linalg.norm(N)) - 1.0) > 1e-9:
+        ctx.fail("%s.normal:not-unit" % case["cls"], "the stored normal is not a unit vector", case, N)
+        return
     R = kabsch(N)
     R2 = kabsch(Z)
     ok_contract = (np.allclose(R @ R.T, np.eye(3), atol=1e-12) and abs(np.linalg.det(R) - 1) < 1e-12
@@ -164,10 +167,14 @@ def make_case(rng, ctx):
         v = np.roll(v, -1, axis=0)
     mode = ["default", "same", "opposite"][int(rng.integers(3))]
     normal = None
+    # explicit normals are passed with a non-unit length half of the time (the constructor must normalise them)
+    nlen = 1.0 if rng.random() < 0.5 else float(rng.choice([2.0, 0.5, 3.7, 1e-3, 1e3]))
     if mode == "same":
-        normal = fr["n"].tolist()
+        normal = (fr["n"] * nlen).tolist()
     elif mode == "opposite":
-        normal = (-fr["n"]).tolist()
+        normal = (-fr["n"] * nlen).tolist()
+    if mode != "default":
+        ctx.count("normal-length:" + ("unit" if nlen == 1.0 else "non-unit"))
     cls = "Polygon"
     if kind in ("convex", "rect", "triangle") and rng.random() < 0.5:
         cls = "ConvexPolygon"
